@@ -21,7 +21,9 @@ CLS_ENUM30 = C07.CLS_ENUM30
 CLS_PATHS = "path-template-and-path-parameters-differ-with-equal-counts"
 CLAUSES = {1: "a $ref does not resolve", 2: "path template and required path parameters do not match one to one",
            3: "two parameters share a name in one location", 4: "a response has no description",
-           5: "an enum value does not belong to the schema's type", 6: "info/servers/securitySchemes differ from the configuration"}
+           5: "an enum value does not belong to the schema's type", 6: "info/servers/securitySchemes differ from the configuration",
+           7: "a member of the document has not the JSON kind the OpenAPI schema prescribes (a security requirement maps each "
+              "scheme to an ARRAY of scope names, required / tags are arrays of names, ...)"}
 
 
 # ------------------------------------------------------------------ perturbations
@@ -72,6 +74,17 @@ def neutralise(spec, v, u):
         applied.discard(C07.CLS_RFC)
         spec2["components"]["schemas"]["Rfc7807Error"] = spec["components"]["schemas"]["Rfc7807Error"]
     return spec2, applied
+
+
+def scopeless_in_effect(u):
+    """A documented route whose effective security comes from a @Security annotation (its own or the
+    controller's) that has no scopes property."""
+    for c in u["ctrls"]:
+        for r in c["routes"]:
+            eff = r["security"] or c["security"]
+            if not r["hidden"] and any(not sc["scopes"] for sc in eff):
+                return True
+    return False
 
 
 def pick_route(rng, u, want=None):
@@ -231,20 +244,24 @@ def renamed_variable_universe():
 
 def context_first_universe():
     """GetItem(ctx context.Context, id string, verbose bool) and Touch(ctx, id): the context parameter is not
-    documented, the parameters after it are documented once each."""
+    documented, the parameters after it are documented once each.  The controller and two routes carry a
+    @Security annotation WITHOUT the optional scopes property (the natural spelling for apiKey schemes; also on
+    an oauth2 scheme), the third one spells an empty scope list out through the controller's annotation."""
     P = T.prim
     u = f6_universe()
     u["ctrls"][0]["prefix"] = "/inventory"
+    u["ctrls"][0]["security"] = [{"name": "sec1", "scopes": []}]
 
     def par(name, loc, ty):
         return {"name": name, "loc": loc, "alias": None, "type": P(ty), "validate": None}
     u["ctrls"][0]["routes"] = [
         {"name": "GetItem", "verb": "GET", "path": "/items/{id}", "hidden": False,
          "params": [T.ctx_param(), par("id", "path", "string"), par("verbose", "query", "bool")],
-         "ret": P("string"), "err": None, "errors": [], "security": []},
+         "ret": P("string"), "err": None, "errors": [], "security": [{"name": "sec1", "scopes": []}]},
         {"name": "Touch", "verb": "PUT", "path": "/items/{id}", "hidden": False,
          "params": [T.ctx_param(), par("id", "path", "string")],
-         "ret": None, "err": None, "errors": [], "security": []},
+         "ret": None, "err": None, "errors": [], "security": [{"name": "oauthy", "scopes": []},
+                                                              {"name": "sec1", "scopes": ["read"]}]},
         {"name": "Find", "verb": "GET", "path": "/find", "hidden": False,
          "params": [par("q", "query", "string"), T.ctx_param(), par("trace", "header", "string"), par("n", "query", "int")],
          "ret": P("string"), "err": None, "errors": [], "security": []}]
@@ -352,6 +369,8 @@ def main():
         cl = set(e["c08_fail"].get(0, []))
         if paths_mismatch_equal_counts(u):
             cl.discard(2)
+        if T.shape_errors(spec):
+            cl.add(7)
         return sorted(cl) or None
 
     def still_fails(v):
@@ -362,8 +381,16 @@ def main():
 
     class_hits = {}
     unexplained = []
+    shape_failures = 0
     for i, (k, v, kind, _) in enumerate(meta):
         if kind != "raw":
+            continue
+        # clause 7 is decided on the raw JSON (the abstract document is typed: it cannot hold a null where a
+        # list has to stand); no known finding excuses it
+        shape = T.shape_errors(cases[i][2]) if cases[i][2] is not None else []
+        if shape:
+            shape_failures += 1
+            unexplained.append((i, CLAUSES[7] + ": " + "; ".join(shape[:3])))
             continue
         if i in ev["unprojectable"]:
             unexplained.append((i, "the written file cannot be read as an OpenAPI document: " + ev["unprojectable"][i]))
@@ -408,10 +435,12 @@ def main():
         o = observe(small, v)
         res.violation({"kind": "property-fails-on-implementation", "openapi": v, "input": small, "label": items[k][0],
                        "why": why, "after_shrinking": unexplained_failure(small, v, o["spec"]) if o["spec"] else None,
+                       "json_kind_errors": T.shape_errors(o["spec"]) if o["spec"] else [],
                        "document": o["spec"], "cli_exit": o["exit"], "cli_output": o["out"][-1200:],
                        "claim": "prop_C08: every $ref resolves, path templates and required path parameters match, "
                                 "parameter names are unique per location, responses are described, enum values fit "
-                                "the schema type, info/servers/securitySchemes are the configuration's"})
+                                "the schema type, info/servers/securitySchemes are the configuration's; every member has "
+                                "the JSON kind the OpenAPI schema prescribes"})
 
     # ---- correspondence: the model of the command (document or failure) against the implementation
     retyped = set((m[0], m[1]) for m in meta if m[2] == "neutral" and C07.CLS_YAML31 in m[3])
@@ -438,8 +467,10 @@ def main():
         "rule": "type universes of the C07 generator with their controllers (accepted stream; methods may take a "
                 "context.Context parameter at any position) and perturbed copies: "
                 + ", ".join(KINDS) + "; each rendered to Go and run through the real CLI for 3.0.0 and 3.1.0, half of "
-                "the perturbed projects with a foreign spec file already at outputPath; wf + configuration sections "
-                "(prop_C08) are evaluated by vm_compute on whatever file is at outputPath afterwards, failed commands "
+                "the perturbed projects with a foreign spec file already at outputPath; @Security annotations are written "
+                "with and without the optional scopes property, on controllers and routes; wf + configuration sections "
+                "(prop_C08) are evaluated by vm_compute on whatever file is at outputPath afterwards and the JSON kind of "
+                "every security / required / tags / parameters / responses member on the raw file, failed commands "
                 "must leave the path untouched; non-trivial = a document was written; distinct = distinct projects",
         "samples": [{"openapi": cases[i][0], "label": items[meta[i][0]][0], "universe": cases[i][1],
                      "cli_exit": obs[meta[i][0]][cases[i][0]]["exit"]} for i in raw[6:8]],
@@ -451,6 +482,9 @@ def main():
         "input_distribution": {"projects": len(universes), "cli_runs": len(raw), "labels": labels,
                                "documents_written": len(written), "commands_failed": len(raw) - len(written),
                                "runs_with_foreign_file_in_place": 2 * len(sentinel),
+                               "projects_with_a_scope_less_security_annotation_in_effect": len(
+                                   [1 for u in universes if scopeless_in_effect(u)]),
+                               "documents_failing_the_json_kind_clause": shape_failures,
                                "outcomes": outcome,
                                "model_predicts_failure": len([i for i in ev["model_none"] if meta[i][2] == "raw"]),
                                "runs_satisfying_well_linked (C08_wf_partial)":
